@@ -410,6 +410,29 @@ func (e *env) Codec(c *enum.Ctx, d *rtl.Decl, longLen int) (reflect.Value, []byt
 			return v, want, false
 		}
 	}
+	// the reader may be a bytes.Buffer the caller goes on using: what was decoded stays what it was when the buffer is
+	// reset and refilled (a connection's receive buffer), and the bytes behind the message stay unread
+	{
+		raw := append(append([]byte{}, want...), 0xEE, 0xEE, 0xEE, 0xEE)
+		buf := bytes.NewBuffer(raw)
+		b3 := reflect.New(t)
+		if err := tl.Unmarshal(buf, b3.Interface()); err != nil {
+			c.Fail("unmarshal-buffer:"+d.Name, "UnmarshalTL from a bytes.Buffer fails: %v", err)
+			return v, want, false
+		}
+		if rest := buf.Bytes(); len(rest) != 4 || rest[0] != 0xEE {
+			c.Fail("unmarshal-buffer:"+d.Name, "UnmarshalTL from a bytes.Buffer left %d bytes unread (4 follow the message)", len(rest))
+			return v, want, false
+		}
+		buf.Reset()
+		for i := 0; i < len(raw); i++ {
+			buf.WriteByte(0x5A)
+		}
+		if diff := gen.Equal(v, b3.Elem()); diff != "" {
+			c.Fail("unmarshal-buffer-aliased:"+d.Name, "a value decoded from a bytes.Buffer changes when the buffer is reused: differs at %s", diff)
+			return v, want, false
+		}
+	}
 	return v, want, true
 }
 
